@@ -117,7 +117,6 @@ def _model_records(ctx, count, rid0):
 
 
 def run(ctx):
-    sfx = '' if ctx.quick else '_thorough'
     ctx.rule = ('S->C: every configuration (spike trains incl. times equal to chunk bounds x '
                 'labelings x every chunk grid x n_chunks_kept x requested counts {None,0,1,2} x '
                 'request lists incl. empty/unknown ids x chunk restriction x subset) within the '
@@ -125,12 +124,20 @@ def run(ctx):
                 'set of all selections the statement allows (computed by TLC), under several NumPy '
                 'seeds; non-trivial = more than one allowed selection or a non-empty one. '
                 'C->S: random large inputs judged by the relational ValidSelOf.')
-    ctx.model_check('Selector', 'MC_Selector%s.cfg' % sfx, expect_actions=('Pick', 'Pick2', 'Call'),
-                    timeout=3000, note='every I-layer outcome is allowed by the statement and every '
-                    'allowed selection is an I-layer outcome; parity trick = interval membership')
-    res, path, n = ctx.generate('Selector', 'Gen_Selector%s.cfg' % sfx, timeout=3000)
-    k = 0
+    cfgs = [''] if ctx.quick else ['', '_thorough']       # thorough: 3 spikes on times 0..3 AND 4 spikes on times 0..2
     fallback = []
+    for sfx in cfgs:
+        ctx.model_check('Selector', 'MC_Selector%s.cfg' % sfx, expect_actions=('Pick', 'Pick2', 'Call'),
+                        timeout=6000, note='every I-layer outcome is allowed by the statement and every '
+                        'allowed selection is an I-layer outcome; parity trick = interval membership')
+        if _replay_generated(ctx, 'Gen_Selector%s.cfg' % sfx, fallback):
+            return
+    _random_and_validate(ctx, fallback)
+
+
+def _replay_generated(ctx, cfg, fallback):
+    res, path, n = ctx.generate('Selector', cfg, timeout=6000)
+    k = 0
     for case in tlc.read_cases(path):
         k += 1
         ctx.evaluations += 1
@@ -139,12 +146,16 @@ def run(ctx):
         with ctx.guard('select', case):
             _compare(ctx, case, k, fallback)
         if ctx.abort:
-            return
+            return True
         if k % 50021 == 1:
             ctx.sample(case)
     path.unlink()
     if k != n:
         raise MachineryError('replayed %d of %d cases' % (k, n))
+    return False
+
+
+def _random_and_validate(ctx, fallback):
     recs = []
     with ctx.guard('trace', None, seconds=300):
         recs = _random_records(ctx, 300 if ctx.quick else 3000)
